@@ -290,8 +290,140 @@ def check_varint(case):
     return {'nt': v >= 0xfd, 'cls': ['varint'], 'evals': 2 + len(E)}
 
 
+class _Cut(Exception):
+    pass
+
+
+def _ref_parse(which, data):
+    """the reference reading of raw bytes -> (status, consumed, model); status: 'ok' (a canonical valid encoding of an object in
+    the statement's domain, possibly followed by surplus bytes), 'prefix' (a strict prefix of such encodings: the bytes end
+    inside a field and everything before is in the domain), 'out' (anything else: no claim)"""
+    pos = [0]
+    big = [0]
+
+    def take(n):
+        if pos[0] + n > len(data):
+            raise _Cut()
+        r = data[pos[0]:pos[0] + n]; pos[0] += n
+        return r
+
+    def integer(n, signed=False):
+        return int.from_bytes(take(n), 'little', signed=signed)
+
+    def varint():
+        c = take(1)[0]
+        v = c if c < 0xfd else integer({0xfd: 2, 0xfe: 4, 0xff: 8}[c])
+        if c >= 0xfd and v < {0xfd: 0xfd, 0xfe: 0x10000, 0xff: 0x100000000}[c]:
+            raise ValueError('non-canonical CompactSize')         # not "the" encoding of anything: no claim
+        big[0] = max(big[0], v)
+        if v > 200000:
+            raise ValueError('count / length beyond anything the bytes at hand could honour')
+        return v
+
+    def tx():
+        ver = integer(4, True)
+        ext = False
+        if take(1) == b'\x00':
+            if take(1) != b'\x01':
+                raise ValueError('no inputs / unknown flag')
+            ext = True
+        else:
+            pos[0] -= 1
+        nin = varint()
+        if nin == 0:
+            raise ValueError('no inputs')
+        vin = [(bytes(take(32)), integer(4), bytes(take(varint())), integer(4)) for _ in range(nin)]
+        vout = [(integer(8, True), bytes(take(varint()))) for _ in range(varint())]
+        wit = None
+        if ext:
+            wit = [[bytes(take(varint())) for _ in range(varint())] for _ in vin]
+            lt_pos = pos[0]
+            if not any(wit):
+                raise ValueError('extended form without witness data')
+        return {'version': ver, 'vin': vin, 'vout': vout, 'wit': wit, 'locktime': integer(4)}
+
+    def header():
+        return {'version': integer(4, True), 'prev': bytes(take(32)), 'root': bytes(take(32)), 'time': integer(4), 'bits': integer(4), 'nonce': integer(4)}
+
+    try:
+        if which == 'header':
+            m = header()
+        elif which == 'block':
+            m = header()
+            m['txs'] = [tx() for _ in range(varint())]
+        else:
+            m = tx()
+    except _Cut:
+        return 'prefix', pos[0], None
+    except ValueError:
+        return 'out', pos[0], None
+    return 'ok', pos[0], m
+
+
+def check_raw(case):
+    """ARBITRARY bytes (coverage-guided mutation of valid encodings): wherever the reference reading says the bytes are a
+    valid encoding, a valid encoding plus surplus, or a strict prefix of valid encodings, the library must say the same"""
+    data = bytes.fromhex(case['b'])
+    which = case['which']
+    cls = {'tx': CTransaction, 'mtx': CMutableTransaction, 'block': CBlock, 'header': CBlockHeader}[which]
+    status, used, m = _ref_parse('tx' if which == 'mtx' else which, data)
+    if status == 'out':
+        # outside the statement: whatever the library does, it does with an exception of the serialisation family or an object
+        try:
+            cls.deserialize(data)
+        except (SerializationError, ValueError):
+            pass
+        return {'nt': False, 'evals': 1, 'cls': ['raw-out-of-domain']}
+
+    def fields_ok(o):
+        if which == 'header':
+            return o.serialize() == W.enc_header(m)
+        if which == 'block':
+            return o.serialize() == W.enc_block(dict(m, root=m['root'])) and len(o.vtx) == len(m['txs'])
+        return _eqmodel(libx.tx_model_of(o), m) and o.serialize() == W.enc_tx(m)
+    if status == 'prefix':
+        try:
+            r = cls.deserialize(data)
+        except SerializationTruncationError:
+            return {'nt': len(data) > 10, 'evals': 1, 'cls': ['raw-prefix'], 'digest': digest(data)}
+        except Exception as e:
+            raise unexpected('raw/%s/prefix' % which, e, 'bytes=%s' % data.hex()[:120])
+        raise Violation('raw/%s/prefix-parsed' % which, 'bytes that end inside a field (%s) parsed into a %s' % (data.hex()[:120], type(r).__name__))
+    E = data[:used]
+    canon = W.enc_header(m) if which == 'header' else (W.enc_block(m) if which == 'block' else W.enc_tx(m))
+    assert canon == E, 'reference reader / encoder disagree'
+    rest = data[used:]
+    try:
+        r = cls.deserialize(data)
+    except DeserializationExtraDataError as e:
+        if not rest:
+            raise Violation('raw/%s/extra-data-on-exact' % which, 'extra-data error on an exact encoding')
+        if e.padding != rest or not fields_ok(e.obj):
+            raise Violation('raw/%s/ext-obj' % which, 'extra-data error carries another object / surplus')
+        r = libx.call('raw/allow_padding', cls.deserialize, data, allow_padding=True)[1]
+    except Exception as e:
+        raise unexpected('raw/%s/valid' % which, e, 'bytes=%s' % data.hex()[:120])
+    else:
+        if rest:
+            raise Violation('raw/%s/ext-accepted' % which, 'valid encoding + %d surplus bytes parsed without error' % len(rest))
+    if not fields_ok(r):
+        raise Violation('raw/%s/fields' % which, 'valid encoding %s parsed into other field values' % E.hex()[:120])
+    # the stream interface stops exactly at the end of the object
+    f = io.BytesIO(data)
+    o2 = libx.call('raw/stream_deserialize', cls.stream_deserialize, f)[1]
+    if f.tell() != used or not fields_ok(o2):
+        raise Violation('raw/%s/stream-consumed' % which, 'stream_deserialize consumed %d bytes of a %d-byte object' % (f.tell(), used))
+    return {'nt': True, 'evals': 3, 'cls': ['raw-valid' + ('+surplus' if rest else '')], 'digest': digest(data)}
+
+
+def fuzz_decode(data):
+    if not data:
+        return {'kind': 'raw', 'which': 'tx', 'b': ''}
+    return {'kind': 'raw', 'which': ('tx', 'mtx', 'block', 'header', 'tx', 'block', 'tx', 'mtx')[data[0] % 8], 'b': bytes(data[1:]).hex()}
+
+
 def check_case(case):
-    return {'tx': check_tx, 'header': check_header, 'block': check_block, 'varint': check_varint}[case['kind']](case)
+    return {'tx': check_tx, 'header': check_header, 'block': check_block, 'varint': check_varint, 'raw': check_raw}[case['kind']](case)
 
 
 # ---------------------------------------------------------------- strategies
@@ -393,4 +525,17 @@ def t_many(ctx):
         ctx.run({'kind': 'tx', 'tx': t, 'ext': ['00'], 'cuts': [7, 77777, 2 ** 20 + 3], 'faults_mutable': False})
 
 
-TASKS = [('tx', (t_tx, 6)), ('tx_small', (t_small, 4)), ('header_block', (t_hdrblk, 4)), ('many', (t_many, 2))]
+def t_fuzz(ctx):
+    """coverage-guided byte-level mutation (Atheris) of valid encodings of transactions, blocks and headers; oracle = check_raw"""
+    from .. import fuzzdrv
+    t1 = {'version': 1, 'vin': [(b'\x07' * 32, 1, b'\x51', 5)], 'vout': [(1, b'\x51')], 'wit': None, 'locktime': 0}
+    t2 = {'version': 2, 'vin': [(b'\x08' * 32, 0, b'', 0xffffffff), (b'\x09' * 32, 3, b'\x00\x51', 1)], 'vout': [(5, b'\x51\x52'), (0, b'')],
+          'wit': [[b'\xaa', b''], []], 'locktime': 500000000}
+    hdr = {'version': 1, 'prev': b'\x01' * 32, 'root': b'\x02' * 32, 'time': 3, 'bits': 0x207fffff, 'nonce': 4}
+    seeds = [b'\x00' + W.enc_tx(t1), b'\x01' + W.enc_tx(t2), b'\x03' + W.enc_header(hdr), b'\x02' + W.enc_block(dict(hdr, txs=[t1, t2])),
+             b'\x02' + W.enc_block(dict(hdr, txs=[])), b'\x00' + W.enc_tx(t2) + b'\x00', b'\x00' + W.enc_tx(t1)[:-3]]
+    fuzzdrv.campaign(ctx, 'c01', seeds, runs=ctx.n(60000, 0), seconds=ctx.n(0, 240), max_len=600, label='wire-fuzz')
+
+
+TASKS = [('tx', (t_tx, 6)), ('tx_small', (t_small, 4)), ('header_block', (t_hdrblk, 4)), ('many', (t_many, 2)),
+         ('fuzz', (t_fuzz, lambda tier: 2 if tier == 'quick' else 4))]
